@@ -970,6 +970,14 @@ let cos = Stdlib.cos
 
 let sin = Stdlib.sin
 
+(** val tan : RbaseSymbolsImpl.coq_R -> RbaseSymbolsImpl.coq_R **)
+
+let tan = Stdlib.tan
+
+(** val sqrt : RbaseSymbolsImpl.coq_R -> RbaseSymbolsImpl.coq_R **)
+
+let sqrt = Stdlib.sqrt
+
 type 't ops = { o0 : 't; o1 : 't; oadd : ('t -> 't -> 't);
                 omul : ('t -> 't -> 't); osub : ('t -> 't -> 't);
                 oopp : ('t -> 't); odiv : ('t -> 't -> 't);
@@ -1214,6 +1222,47 @@ let face_ff_code n q0 v =
 let polyhedron_ff_code q0 f =
   csum (map (fun f0 -> face_ff_code (fst f0) q0 (snd f0)) f)
 
+(** val branch_horizontal :
+    RbaseSymbolsImpl.coq_R -> RbaseSymbolsImpl.coq_R -> RbaseSymbolsImpl.coq_R **)
+
+let branch_horizontal y0 th =
+  sqrt
+    (rdiv (RbaseSymbolsImpl.coq_Rmult y0 y0)
+      (rminus (iZR (Zpos XH)) (RbaseSymbolsImpl.coq_Rmult (cos th) (cos th))))
+
+(** val branch_vertical :
+    RbaseSymbolsImpl.coq_R -> RbaseSymbolsImpl.coq_R -> RbaseSymbolsImpl.coq_R **)
+
+let branch_vertical x1 th =
+  sqrt
+    (rdiv (RbaseSymbolsImpl.coq_Rmult x1 x1)
+      (rminus (iZR (Zpos XH)) (RbaseSymbolsImpl.coq_Rmult (sin th) (sin th))))
+
+(** val branch_generic :
+    RbaseSymbolsImpl.coq_R -> RbaseSymbolsImpl.coq_R ->
+    RbaseSymbolsImpl.coq_R -> RbaseSymbolsImpl.coq_R **)
+
+let branch_generic m y0 th =
+  let x = rdiv y0 (rminus (tan th) m) in
+  let y = RbaseSymbolsImpl.coq_Rmult (tan th) x in
+  sqrt
+    (RbaseSymbolsImpl.coq_Rplus (RbaseSymbolsImpl.coq_Rmult x x)
+      (RbaseSymbolsImpl.coq_Rmult y y))
+
+(** val edge_distance :
+    RbaseSymbolsImpl.coq_R -> RbaseSymbolsImpl.coq_R ->
+    RbaseSymbolsImpl.coq_R -> RbaseSymbolsImpl.coq_R ->
+    RbaseSymbolsImpl.coq_R -> RbaseSymbolsImpl.coq_R **)
+
+let edge_distance x1 y1 x2 y2 th =
+  if req_EM_T (rminus x1 x2) (iZR Z0)
+  then branch_vertical x1 th
+  else let m = rdiv (rminus y1 y2) (rminus x1 x2) in
+       let y0 = rminus y1 (RbaseSymbolsImpl.coq_Rmult m x1) in
+       if req_EM_T m (iZR Z0)
+       then branch_horizontal y0 th
+       else branch_generic m y0 th
+
 (** val ffr_polygon :
     RbaseSymbolsImpl.coq_R vec3 -> RbaseSymbolsImpl.coq_R vec3 ->
     RbaseSymbolsImpl.coq_R vec3 list ->
@@ -1229,3 +1278,11 @@ let ffr_polygon =
 
 let ffr_polyhedron =
   polyhedron_ff_code
+
+(** val ffr_edge_distance :
+    RbaseSymbolsImpl.coq_R -> RbaseSymbolsImpl.coq_R ->
+    RbaseSymbolsImpl.coq_R -> RbaseSymbolsImpl.coq_R ->
+    RbaseSymbolsImpl.coq_R -> RbaseSymbolsImpl.coq_R **)
+
+let ffr_edge_distance =
+  edge_distance
